@@ -30,6 +30,14 @@ def main():
         return 3
     try:
         a = sh("git -C %s apply %s/patch.diff" % (wt, d))
+        if a.returncode != 0:      # /repo has moved on since the patch was written (fix commits): merge it
+            a = sh("git -C %s apply --3way %s/patch.diff" % (wt, d))
+            if a.returncode == 0:
+                res["rebased"] = True
+                sh("git -C %s reset -q" % wt)
+                nd = sh("git -C %s diff" % wt)
+                if nd.returncode == 0 and nd.stdout.strip() and "<<<<<<<" not in nd.stdout:
+                    open(os.path.join(d, "patch.diff"), "w").write(nd.stdout)      # keep the patch that applies to /repo HEAD
         if a.returncode != 0:
             res["error"] = "PATCH DOES NOT APPLY: " + a.stdout[-300:]
             print(json.dumps(res))
